@@ -156,6 +156,11 @@ func (w *c18World) build(sc *c18Scenario, contents map[int][]byte) ([]string, er
 					target = m.path
 				}
 			}
+			// every other scenario spells a link to a neighbour in the same directory relatively (as `ln -s f g`
+			// does): a link moved or re-created elsewhere must still lead to the same file
+			if w.seq%2 == 1 && filepath.Dir(target) == filepath.Dir(n.path) {
+				target = filepath.Base(target)
+			}
 			if err := os.Symlink(target, n.path); err != nil {
 				return dirs, err
 			}
